@@ -104,7 +104,7 @@ def gen_plan(prop, run_seed, tier):
         plan["screen"] = spec
         plan["prepare"] = dict(fraction=w.choice([0.2, 0.5, 0.5, 0.8, 1.0]), seed=w.randrange(2**31)) if w.random() < 0.6 else None
         n_steps = s.randint(2, 10 if tier == "quick" else 30)
-        ops = ["save_load"] * 6 + ["space_save_load"] * 2 + ["reveal", "mask", "unmask", "split", "set_observed"]
+        ops = ["save_load"] * 6 + ["space_save_load"] * 2 + ["reveal", "mask", "unmask", "split", "set_observed", "merge_plates", "merge_plates"]
     else:  # C01
         spec = gen.gen_screen(w, alphabet=w.choice(["tricky", "tricky", "ascii"]))
         plan["screen"] = spec
@@ -123,6 +123,9 @@ def gen_plan(prop, run_seed, tier):
                 st["poison"] = f.choice(["zero", "nan", "nan_one"])
         if op == "save_load":
             st["cycles"] = s.choice([1, 1, 2, 3])
+            if prop == "C02":
+                st["rep"] = s.random() < 0.25  # mostly keep the saved object alive: it may be edited and saved again
+                st["keep_original_last"] = True
         if op == "split":
             st["fraction"] = s.choice([0.0, 0.3, 0.5, 1.0])
         if op == "corrupt_mapping":
@@ -682,6 +685,10 @@ def op_save_load(ctx, st, t):
     _lineage_check(ctx, live, child, "save_load")
     ctx.log.ev("reloaded", ref.logical_screen_digest(cur))
     _put(ctx, st, t, child)
+    if st.get("keep_original_last") and not st.get("rep") and live in ctx.pool:
+        # the object that was saved stays the "most recent" one: it may be edited in place and saved again
+        ctx.pool.remove(live)
+        ctx.pool.append(live)
 
 
 def _c02_compare(ctx, a, b, cycle):
@@ -829,38 +836,58 @@ def _private_copy(ctx, live):
 
 
 def op_merge_plates(ctx, st, t):
-    """Plate.merge re-encodes plate ids in place (C01: plate ids stay dense and faithful)."""
+    """Plate.merge renames rows and re-encodes plate ids IN PLACE (C01: plate ids stay dense and
+    faithful; C02: a later save must store what the object now holds).  Plate handles are taken up
+    front and reused across the merges of one operation, so a handle can be stale (taken before an
+    earlier merge).  The live object itself is edited when nothing else shares its arrays."""
     src = ctx.pool[t]
     rnd = sub_rng(st["sub"], "merge")
     plates = sorted({r[3] for r in src.rows})
     if len(plates) < 2:
         return
     status = {p: {r[4] for r in src.rows if r[3] == p} for p in plates}
-    na, nb = rnd.sample(plates, 2)
-    if status[na] != status[nb] or len(status[na]) != 1:
+    same = {}
+    for p in plates:
+        if len(status[p]) == 1:
+            same.setdefault(next(iter(status[p])), []).append(p)
+    groups = [v for v in same.values() if len(v) >= 2]
+    if not groups:
         return  # merging plates of different observation status would break the atomicity precondition
-    live = _private_copy(ctx, src)
+    names = rnd.choice(groups)
+    names = rnd.sample(names, min(len(names), rnd.randint(2, 4)))
+    exclusive = not any(o is not src and o.group == src.group for o in ctx.pool)
+    inplace = exclusive and st.get("inplace", True)
+    live = src if inplace else _private_copy(ctx, src)
     if live is None:
         return
     s = live.screen
     pid = ref.plate_id_of(live.rows)
-    pa, pb = s.get_plate(pid[na]), s.get_plate(pid[nb])
-    sel = np.array([r[3] in (na, nb) for r in live.rows], dtype=bool)
-    try:
-        pa.merge(pb)
-    except Exception as e:
-        ctx.log.ev("merge-raised", type(e).__name__)
-        return
-    # which of the two names survives is not specified anywhere: accept either, but only those
-    got_names = {str(x) for x in np.asarray(s.plate_names)[sel].tolist()}
-    if len(got_names) != 1 or not got_names <= {na, nb}:
-        ctx.violation("C01.merge-names", "Plate.merge", f"merged plates {na!r},{nb!r} now carry names {sorted(got_names)}")
-        return
-    keep = got_names.pop()
-    live.rows = [(r[0], r[1], r[2], keep if k else r[3], r[4]) for r, k in zip(live.rows, sel)]
-    ctx.log.ev("merged", na, nb, keep)
-    ctx.stats.probe("plate_merge_in_place")
-    _put(ctx, st, t, live)
+    handles = {n: s.get_plate(pid[n]) for n in names}
+    pairs = [(names[0], names[1])] if len(names) == 2 else \
+        [(names[-2], names[-1]), (names[0], names[-1])] + ([(names[1], names[0])] if len(names) > 3 and rnd.random() < 0.5 else [])
+    for a, b in pairs:
+        sel = np.asarray(handles[a].selection_vector) | np.asarray(handles[b].selection_vector)
+        before_names = {live.rows[i][3] for i in np.where(sel)[0]}
+        try:
+            handles[a].merge(handles[b])
+        except Exception as e:
+            ctx.log.ev("merge-raised", type(e).__name__)
+            if not inplace:
+                return
+            break
+        got_names = {str(x) for x in np.asarray(s.plate_names)[sel].tolist()}
+        if len(got_names) != 1 or not got_names <= before_names:
+            ctx.violation(f"{ctx.prop}.merge-names" if ctx.prop in ("C01", "C02") else "C01.merge-names", "Plate.merge",
+                          f"merged rows carried names {sorted(before_names)} and now carry {sorted(got_names)}")
+            return
+        keep = next(iter(got_names))
+        live.rows = [(r[0], r[1], r[2], keep if k else r[3], r[4]) for r, k in zip(live.rows, sel)]
+        ctx.log.ev("merged", a, b, keep)
+        ctx.stats.probe("plate_merge_in_place" + ("_on_live_object" if inplace else ""))
+    if len(pairs) > 1:
+        ctx.stats.probe("plate_merge_with_reused_handle")
+    if not inplace:
+        _put(ctx, st, t, live)
 
 
 def op_set_observed(ctx, st, t):
